@@ -101,6 +101,9 @@ func c15(r *Report) propMeta {
 	r.Rule("C15.R7", "store-key agreement: every point read/delete addresses a written key family")
 	r.StoreKeyAgreement("store-keys", "oracle", 14, nil)
 
+	r.Rule("C15.R8", "E19 constructors of x/oracle/types store their inputs unchanged")
+	r.CtorFaithful("ctor", faithfulCtors["oracle"]...)
+
 	return propMeta{
 		Decided: []string{
 			"R1 NewValidatorStatus(true,…) only in Activate; NewValidatorStatus(false,…) only in MissReport and the not-found default; the status store has one writer reached only from Activate/MissReport/genesis",
@@ -110,6 +113,7 @@ func c15(r *Report) propMeta {
 			"R5 CheckMissReport returns the conjunction lastTime<now && lastBlock<height; each bound only moves forward (max-update), price-based candidates count only when a price exists, and the block bound does not depend on the time bound's branch (nor vice versa)",
 			"R6 MissReport has exactly the two callers",
 			"R7 every KV-store Get/Has/Delete of x/oracle uses a key builder of x/oracle/types that some Set of the module also uses (a probe of an iteration prefix or of a sibling family is always-empty state)",
+			"R8 the literal constructors of x/oracle/types (frozen list) store each parameter or a constant unchanged in the record they build: what a handler validated is what is stored",
 		},
 		Undecided: []string{"fairness over the four-clock timing space (boundary equalities being the intended ones)", "block time monotonicity"},
 		Assume:    []string{"msg handlers atomic"},
